@@ -56,6 +56,8 @@ var verifState struct {
 	wg       sync.WaitGroup
 	baseG    int
 	gen      int
+	onSync   func()
+	inHook   bool
 	finished bool
 	doneCh   chan string
 }
@@ -172,7 +174,36 @@ func verifDrain() {
 func verifYield()          { runtime.Gosched(); time.Sleep(time.Millisecond) }
 func verifAllowBlock()     {}
 func verifInlineGo(on bool) {}
-func verifOnSync(f func())  {}
+
+// verifOnSync / verifSyncPoint: the package's own sources are compiled for
+// replay with a verifSyncPoint() call before every synchronisation operation
+// (engine/instr); the environment hook runs there, inline on the harness
+// goroutine, exactly where the symbolic engine ran it.
+func verifOnSync(f func()) {
+	verifState.mu.Lock()
+	verifState.onSync = f
+	verifState.mu.Unlock()
+}
+
+func verifSyncPoint() {
+	verifState.mu.Lock()
+	f := verifState.onSync
+	busy := verifState.inHook
+	verifState.mu.Unlock()
+	if f == nil || busy || verifGID() != verifState.mainGID {
+		return
+	}
+	verifState.mu.Lock()
+	verifState.inHook = true
+	verifState.mu.Unlock()
+	defer func() {
+		verifState.mu.Lock()
+		verifState.inHook = false
+		verifState.mu.Unlock()
+	}()
+	f()
+}
+
 
 // verifOnBlock: natively there is no scheduler to ask, so a watchdog assumes
 // the harness is blocked when it has not finished 50 ms later, and runs f then
@@ -328,6 +359,8 @@ func verifReplayOne(path string, funcs map[string]func()) {
 	verifState.diverged = ""
 	verifState.observed = nil
 	verifState.gen++
+	verifState.onSync = nil
+	verifState.inHook = false
 	verifState.finished = false
 	done := make(chan string, 4)
 	verifState.doneCh = done
